@@ -224,7 +224,28 @@ func Discharge(results []*FuncResult, timeoutMs int, seed int, all bool, keepQue
 			var r solveResult
 			done := false
 			lq := ""
-			if !o.ExpectSat && (strings.Contains(q, "(forall ") || strings.Contains(q, "(exists ")) {
+			if !o.ExpectSat && len(q) > 60000 {
+				// stage 0: the goal's cone of influence only (hypotheses sharing no symbol
+				// with it, transitively, are dropped: a sound weakening). Large functions
+				// produce path conditions most of which a given goal never touches.
+				if sl := j.ctx.Slice(o.Hyps, o.Goal); len(sl)*2 <= len(o.Hyps) {
+					sq := j.ctx.QueryOpt(sl, o.Goal, true, QLite)
+					if len(sq)*2 <= len(q) {
+						if !strings.Contains(sq, "(forall ") && !strings.Contains(sq, "(exists ") {
+							sq = strings.Replace(sq, "(set-logic ALL)", "(set-logic QF_AUFBV)", 1)
+						}
+						sr, _ := race(sq, dir, j.id+4000000, 5000, seed, false)
+						mu.Lock()
+						solverSeconds += float64(sr.ms) / 1000
+						mu.Unlock()
+						if sr.status == "unsat" {
+							r, done = sr, true
+							r.solver += "+slice"
+						}
+					}
+				}
+			}
+			if !done && !o.ExpectSat && (strings.Contains(q, "(forall ") || strings.Contains(q, "(exists ")) {
 				// stage 1: ground instances only, every remaining quantifier dropped (weaker, sound)
 				lq = j.ctx.QueryOpt(o.Hyps, o.Goal, true, QLite)
 				if !strings.Contains(lq, "(forall ") && !strings.Contains(lq, "(exists ") {
